@@ -1,5 +1,6 @@
 import CryoCat.Drv.Proto
-import CryoCat.Model.C02
+import CryoCat.Model.C02_Num
+import CryoCat.Model.C02_Comments
 namespace CryoCat.Drv.C02
 open Lean CryoCat CryoCat.C02
 
@@ -18,19 +19,54 @@ def blockJson (b : Block) : Json :=
               ("rows", Json.arr (b.rows.map (fun r => Json.arr (r.map str).toArray)).toArray),
               ("kinds", Json.arr ((blockKinds isNumTok b).map Json.bool).toArray)]
 
+def blockCJson (p : Block × List Comment) : Json :=
+  (blockJson p.1).setObjVal! "comments" (Json.arr (p.2.map str).toArray)
+
+/-- `Starfile.read(path)`: blocks, column kinds and comment lists -/
 def readJson (txt : List Char) : Json :=
-  match readStar txt with
-  | .ok bs => Json.mkObj [("blocks", Json.arr (bs.map blockJson).toArray)]
+  match readStarC txt with
+  | .ok bs => Json.mkObj [("blocks", Json.arr (bs.map blockCJson).toArray)]
   | .error e => errJson e
+
+def selJson : Except SelErr (Block × List Comment) → Json
+  | .ok b => Json.mkObj [("block", blockCJson b)]
+  | .error (.parse e) => errJson e
+  | .error .index => err "IndexError"
+  | .error .noEntry => err "ValueError"
 
 def parseWords (a : Array Json) : Option (List Word) :=
   a.toList.mapM (fun j => match j with | Json.str s => some s.toList | _ => none)
 
-def parseBlock (j : Json) : Option Block := do
+/-- a typed cell: a string (text), an integer, `[neg, "digits", decpt]` (finite float),
+`["inf", neg]`, `["nan"]` -/
+def parseCell (j : Json) : Option Cell :=
+  match j with
+  | Json.str s => some (.txt s.toList)
+  | Json.arr #[Json.bool neg, Json.str ds, d] =>
+    match d.getInt? with
+    | .ok k => some (.flt (.fin neg ds.toList k))
+    | .error _ => none
+  | Json.arr #[Json.str "inf", Json.bool neg] => some (.flt (.inf neg))
+  | Json.arr #[Json.str "nan"] => some (.flt .nan)
+  | Json.arr _ => none
+  | _ => match j.getInt? with
+    | .ok n => some (.int n)
+    | .error _ => none
+
+def parseBlock (j : Json) : Option TBlock := do
   let name ← getStr? j "name"
   let cols ← getArr? j "cols" >>= parseWords
-  let rows ← getArr? j "rows" >>= (fun a => a.toList.mapM (fun r => match r with | Json.arr c => parseWords c | _ => none))
+  let rows ← getArr? j "rows" >>= (fun a => a.toList.mapM (fun r => match r with | Json.arr c => c.toList.mapM parseCell | _ => none))
   pure { name := name.toList, cols := cols, rows := rows }
+
+/-- the `comments` argument: `null` or one entry per block, each `null` or a list of strings -/
+def parseComments (n : Nat) (j : Json) : Option (List (Option (List Comment))) :=
+  match j.getObjVal? "comments" with
+  | .ok (Json.arr a) => a.toList.mapM (fun c => match c with
+      | Json.null => some none
+      | Json.arr cs => (parseWords cs).map some
+      | _ => none)
+  | _ => some (List.replicate n none)
 
 def tokJson : Tok → Json
   | .lit w => Json.arr #[Json.str "LITERAL", str w]
@@ -43,7 +79,11 @@ def handle (j : Json) : Json :=
   match getStr? j "op" with
   | some "read" =>
     match getStr? j "text" with
-    | some t => readJson t.toList
+    | some t =>
+      match getInt? j "data_id", getStr? j "specifier" with
+      | some i, _ => selJson (readSel t.toList i)
+      | none, some s => selJson (getFrameAndComments t.toList s.toList)
+      | none, none => readJson t.toList
     | none => err "bad-args"
   | some "tokens" =>
     match getStr? j "text" with
@@ -52,9 +92,18 @@ def handle (j : Json) : Json :=
   | some "print" =>
     match getArr? j "blocks" >>= (fun a => a.toList.mapM parseBlock), (j.getObjValAs? Bool "number_columns").toOption with
     | some bs, some nc =>
-      let txt := printStar nc bs
-      Json.mkObj [("text", str txt), ("read", readJson txt)]
+      match parseComments bs.length j with
+      | none => err "bad-args"
+      | some coms =>
+        match printStarC nc coms (bs.map TBlock.texts) with
+        | none => err "ValueError"
+        | some txt => Json.mkObj [("text", str txt), ("read", readJson txt)]
     | _, _ => err "bad-args"
+  | some "cells" =>
+    match getArr? j "cells" >>= (fun a => a.toList.mapM parseCell) with
+    | some cs => Json.mkObj [("texts", Json.arr (cs.map (fun c => str (cellText c))).toArray),
+                             ("numeric", Json.arr (cs.map (fun c => Json.bool (isNumTok (cellText c)))).toArray)]
+    | none => err "bad-args"
   | _ => err "bad-op"
 
 end CryoCat.Drv.C02
